@@ -237,7 +237,7 @@ def catalog(tier, families=("prim", "dep", "bool", "product", "transform", "nest
     out = []
     T2 = ("Circle", "Parallelogram", "Triangle")
     if "prim" in families:
-        for kind in ("Interval",) + T2 + (("Sphere",) if tier == "thorough" else ()):
+        for kind in ("Interval",) + T2 + ("Sphere",):
             out.append((kind, (lambda env, kind=kind: PRIMS[kind](env)), dict(kind=kind, fam="prim")))
     if "dep" in families:
         for kind in ("Interval", "Circle") + (("Parallelogram", "Triangle", "Sphere") if tier == "thorough" else ()):
